@@ -136,7 +136,7 @@ class World:
         self.case = case
         self.n = case['n']
         self.storage, self.db = make_db(case, tmpdir, tag)
-        self.tids = [self.storage.lastTransaction()]      # commit order; rank = index + 1
+        self.tids = [self.last_tid()]      # commit order; rank = index + 1
         self.tm = transaction.TransactionManager()
         self.conn = self.db.open(self.tm)
         self.tm2 = transaction.TransactionManager()
@@ -157,6 +157,14 @@ class World:
         self.ident = {id(o): i for i, o in enumerate(self.objs)}
         self.sps = []
         self.commit_failed = False
+
+    def last_tid(self):
+        if self.case['kind'] == 'mvcc':
+            # (every instance of the natively multi-version storage has its own idea of the last transaction;
+            # the transaction table is shared)
+            t = self.storage._transactions
+            return t.maxKey() if len(t) else b'\0' * 8
+        return self.storage.lastTransaction()
 
     def close(self):
         try:
@@ -366,7 +374,7 @@ class World:
                 raise Injected('vote')
             inst.tpc_vote = vote
             patched.append(('tpc_vote', had))
-        before = self.storage.lastTransaction()
+        before = self.last_tid()
         try:
             try:
                 self.tm.commit()
@@ -384,13 +392,13 @@ class World:
         except Exception as e:
             self.after_boundary()
             r = 'fail:' + errname(e)
-            if self.storage.lastTransaction() != before:
+            if self.last_tid() != before:
                 r += ' storage-changed'
             v1 = self.vector()
             self.tm.abort()
             return r + ' tmp=%d' % self.tmp_left(), v1
         self.after_boundary()
-        tid = self.storage.lastTransaction()
+        tid = self.last_tid()
         if tid == before:
             return 'ok nothing tmp=%d' % self.tmp_left(), None
         self.tids.append(tid)
@@ -506,7 +514,7 @@ class World:
                 return 'err:nokey'
             raise
         self.tm2.commit()
-        self.tids.append(self.storage.lastTransaction())
+        self.tids.append(self.last_tid())
         return 'ok t=%d' % len(self.tids)
 
     def op_peek(self, i):
